@@ -211,6 +211,11 @@ def lift_ifexp(stmts):
                 node = ast.copy_location(ast.If(test=v.test, body=rec([a]), orelse=rec([b])), s)
                 out.append(node)
                 continue
+            if isinstance(s, (ast.Assign, ast.AnnAssign, ast.Return, ast.Expr)) and isinstance(v, ast.Call) and isinstance(v.func, ast.Name) and v.func.id == "raise_" \
+                    and len(v.args) == 1:
+                # the refusing alternative of a conditional expression, back as a statement
+                out.append(ast.copy_location(ast.Raise(exc=v.args[0], cause=None), s))
+                continue
             out.append(s)
         return out
     return rec(stmts)
@@ -1000,6 +1005,40 @@ def _append_fallthrough(body, stmt):
 
 # ---------------------------------------------------------------------------------------
 # 8 / 9  expression level
+def _callee_locals(stmts):
+    """f = <pure expression>  ..  f(args)   with f read exactly once, as the callee of a later statement of the same block, and nothing
+    in between rebinding what the expression reads:  the expression is called directly (`TABLE[k](args)`, a handler picked first)"""
+    def block(b):
+        b = list(b)
+        i = 0
+        while i < len(b):
+            s_ = b[i]
+            _recurse_blocks(s_, block)
+            if isinstance(s_, (ast.Assign, ast.AnnAssign)) and s_.value is not None and not isinstance(s_.value, (ast.Lambda, ast.Name, ast.Constant)):
+                tg = s_.targets[0] if isinstance(s_, ast.Assign) and len(s_.targets) == 1 else (s_.target if isinstance(s_, ast.AnnAssign) else None)
+                if isinstance(tg, ast.Name) and norm.is_pure(s_.value) and isinstance(s_.value, (ast.Subscript, ast.IfExp, ast.Attribute)):
+                    x = tg.id
+                    free = {n.id for n in ast.walk(s_.value) if isinstance(n, ast.Name)}
+                    for j in range(i + 1, len(b)):
+                        t_ = b[j]
+                        uses = [n for n in ast.walk(t_) if isinstance(n, ast.Name) and n.id == x]
+                        if uses:
+                            calls = [n for n in ast.walk(t_) if isinstance(n, ast.Call) and isinstance(n.func, ast.Name) and n.func.id == x]
+                            total = sum(1 for q in stmts_all for n in ast.walk(q) if isinstance(n, ast.Name) and n.id == x)
+                            if len(uses) == 1 and len(calls) == 1 and total == 2 and isinstance(t_, (ast.Assign, ast.AnnAssign, ast.Return, ast.Expr)) \
+                                    and (t_.value is calls[0]):
+                                calls[0].func = s_.value
+                                del b[i]
+                                i -= 1
+                            break
+                        if norm._assigned_names([t_]) & free or isinstance(t_, (ast.FunctionDef, ast.ClassDef)):
+                            break
+            i += 1
+        return b
+    stmts_all = stmts
+    return block(stmts)
+
+
 def _is_count(e) -> bool:
     """an integer count: len(..), integer literals and +,-,* of those (no float, string or list can hide in it)"""
     if isinstance(e, ast.Constant):
@@ -1084,6 +1123,16 @@ class _ExprNorm(ast.NodeTransformer):
             if not (la.vararg or la.kwarg or la.kwonlyargs or la.defaults or la.posonlyargs) and len(la.args) == len(node.args) \
                     and all(isinstance(a, ast.Constant) or norm._attr_chain(a) is not None for a in node.args):
                 return norm._Subst({p_.arg: a for p_, a in zip(la.args, node.args)}).visit(copy.deepcopy(node.func.body))
+        # (f if c else g)(args) -> f(args) if c else g(args)      (a callee picked by a condition; raise_(..) alternatives stay refusals)
+        if isinstance(node.func, ast.IfExp) and all(norm.is_pure(a.value if isinstance(a, ast.Starred) else a) for a in node.args) \
+                and all(norm.is_pure(k.value) for k in node.keywords):
+            def push(fe):
+                if isinstance(fe, ast.IfExp):
+                    return ast.IfExp(test=fe.test, body=push(fe.body), orelse=push(fe.orelse))
+                if isinstance(fe, ast.Call) and isinstance(fe.func, ast.Name) and fe.func.id == "raise_":
+                    return fe
+                return self.visit_Call(ast.Call(func=fe, args=copy.deepcopy(node.args), keywords=copy.deepcopy(node.keywords)))
+            return ast.fix_missing_locations(ast.copy_location(push(node.func), node))
         # f(**{"a": x}) is f(a=x)
         if any(k.arg is None and isinstance(k.value, ast.Dict) for k in node.keywords):
             from .nf import _expand_dict_keywords
@@ -1241,6 +1290,14 @@ class _ExprNorm(ast.NodeTransformer):
 
     def visit_Subscript(self, node):
         self.generic_visit(node)
+        # {k1: v1, k2: v2}[x] -> v1 if x == k1 else v2 if x == k2 else raise_(KeyError(x))     (a dispatch table written out; keys constants / enum members)
+        if isinstance(node.value, ast.Dict) and isinstance(node.ctx, ast.Load) and node.value.keys and norm.is_reference(node.slice) \
+                and all(k is not None and (isinstance(k, ast.Constant) or norm._attr_chain(k) is not None) for k in node.value.keys) \
+                and len({u(k) for k in node.value.keys}) == len(node.value.keys):
+            e = ast.Call(func=ast.Name(id="raise_", ctx=ast.Load()), args=[ast.Call(func=ast.Name(id="KeyError", ctx=ast.Load()), args=[copy.deepcopy(node.slice)], keywords=[])], keywords=[])
+            for k, v in reversed(list(zip(node.value.keys, node.value.values))):
+                e = ast.IfExp(test=ast.Compare(left=copy.deepcopy(node.slice), ops=[ast.Eq()], comparators=[k]), body=v, orelse=e)
+            return ast.fix_missing_locations(ast.copy_location(e, node))
         # m[a if c else b] -> m[a] if c else m[b]   (m a plain reference, load context)
         if isinstance(node.slice, ast.IfExp) and isinstance(node.ctx, ast.Load) and norm.is_reference(node.value):
             a = ast.Subscript(value=copy.deepcopy(node.value), slice=node.slice.body, ctx=ast.Load())
@@ -1660,6 +1717,9 @@ class Canon:
                 consts[name] = v
             elif isinstance(v, (ast.Tuple, ast.List)) and 1 <= len(v.elts) <= 8 and all(_table_entry(e) for e in v.elts):
                 consts[name] = v            # a dispatch table: rows of names / constants / lambdas
+            elif isinstance(v, ast.Dict) and 1 <= len(v.keys) <= 12 and all(k is not None and (isinstance(k, ast.Constant) or norm._attr_chain(k) is not None) for k in v.keys) \
+                    and all(_table_entry(e) for e in v.values):
+                consts[name] = v            # .. keyed by constants / enum members
         if not consts:
             return stmts
         local = norm._assigned_names(stmts) | {a.arg for a in fn.args.posonlyargs + fn.args.args + fn.args.kwonlyargs}
@@ -2156,6 +2216,7 @@ class Canon:
         b = norm.merge_display_building(b)
         b = self._inline_unknown_constants(b, module, fn)
         b = norm.merge_display_building(norm.unroll_literal_loops(b))
+        b = _callee_locals(b)
         b = [ast.fix_missing_locations(_ExprNorm().visit(s_)) for s_ in b]         # expression idioms first (map(f, xs), applied lambdas of table rows): helpers in them are then seen
         # nested function definitions that get inlined are dropped afterwards
         b = lower_matches(b, self._match_args(module, fn))
